@@ -4,7 +4,8 @@ Only property statements live here; every proof is a reference to a lemma of Cod
 SimpleLemmas / VarsLemmas / Lemmas / JsonLemmas, so a statement cannot be weakened quietly.
 
 Not proved (tied by the correspondence run and decided by the direct oracle only): the indented
-text layouts of Indexed MRS and MRX, the MRX and JSON text level (library parameters).
+text layouts of Indexed MRS and MRX, the MRX and JSON text level (library parameters), multi-item
+documents for MRX and MRS-JSON (a list of independent trees / dictionaries).
 -/
 import Verif.Common.CodecLemmas
 import Verif.C01.Lemmas
@@ -16,6 +17,9 @@ import Verif.C01.IxLemmas
 import Verif.C01.IxPropsLemmas
 import Verif.C01.IxLexLemmas
 import Verif.C01.LayoutLemmas
+import Verif.C01.MultiLemmas
+import Verif.C01.MrxStableLemmas
+import Verif.C01.IxStableLemmas
 import Verif.C01.LexToksLemmas
 import Verif.C01.LexLemmas
 
@@ -137,6 +141,16 @@ theorem simplemrs_text_roundtrip_indented (o : Opts) (m : MRS) (h : Lex.LexExprS
   simp only [List.append_nil] at this
   simp [this]
 
+/-- "This holds for single items and multi-item documents" (SimpleMRS, TEXT level, `dumps`/`loads` with
+indent=True: one indented item after the other, separated by line feeds): the lexer reads the
+document back as the concatenation of the items' token lists, and the list decoder returns the list
+of decoded structures. -/
+theorem simplemrs_text_roundtrip_many (o : Opts) (ms : List MRS) (hl : ∀ m ∈ ms, Lex.LexExprS m)
+    (he : ∀ m ∈ ms, ExprS m) :
+    Lex.lex (Lex.renderIndMany o ms) = some (toksMany o ms)
+    ∧ (Lex.lex (Lex.renderIndMany o ms)).map (parseMany (ms.length + 1)) = some (.ok (ms.map (decodedS o))) :=
+  ⟨Lex.lex_renderIndMany o ms hl, Lex.text_roundtrip_many o ms hl he⟩
+
 /-- sorting by `property_priority` is idempotent (used for "encoding that result again reproduces
 the text exactly": the re-encoder sorts an already sorted property list). -/
 theorem sortProps_stable (ps : Props) : sortProps (sortProps ps) = sortProps ps := sortProps_idem ps
@@ -152,6 +166,13 @@ kept, and `variables` rebuilt from the `var` elements (properties at the first m
 arguments, `hi` of handle constraints, individual constraints). -/
 theorem mrx_roundtrip (o : Opts) (m : MRS) (h : ExprX m) : ofXml (toXml o m) = some (decodedX o m) :=
   ofXml_toXml o m h
+
+/-- "encoding that result again reproduces the text exactly" (MRX, tree level): the tree of the
+decoded structure is the tree of the original, for every structure whose `variables` is a
+dictionary (distinct keys), whatever the options. -/
+theorem mrx_stable (o : Opts) (m : MRS)
+    (hn : (m.vars.map (·.1)).Nodup) (hp : ∀ vp ∈ m.vars, (vp.2.map (·.1)).Nodup) :
+    toXml o (decodedX o m) = toXml o m := toXml_decodedX o m hn hp
 
 /-! ## Indexed MRS, token level, relative to a SEM-I that covers the structure -/
 
@@ -203,6 +224,25 @@ theorem indexed_text_roundtrip (semi : Ix.SemI) (o : Opts) (m : MRS) (ts : List 
   simp only [List.append_nil] at hd
   simp [hd]
 
+/-- "encoding that result again reproduces the text exactly" (Indexed MRS, token level): whatever
+the decoder returns for the encoder's tokens (followed by any further tokens) is encoded to the
+same token list again. -/
+theorem indexed_stable (semi : Ix.SemI) (o : Opts) (m d : MRS) (ts rest rest' : List Ix.TI)
+    (htop : m.top.isSome = true) (hc : ∀ e ∈ m.rels, Ix.CoverEP semi e)
+    (hp : Ix.propsCover semi m = true) (hn : (m.vars.map (·.1)).Nodup)
+    (ht : Ix.toksIx semi o m = .ok ts) (hpar : Ix.parseIx semi (ts ++ rest) = .ok (d, rest')) :
+    Ix.toksIx semi o d = .ok ts :=
+  Ix.toksIx_parseIx_toksIx semi o m d ts rest rest' htop hc hp hn ht hpar
+
+/-- "multi-item documents" (Indexed MRS, token level, `loads` ∘ `dumps`): the list decoder run on the
+token lists of several items in a row returns one structure per item, each decoded as its item
+(`Ix.DecodedAs`: the conclusion of `indexed_roundtrip`; `Ix.OkItem`: its hypotheses). -/
+theorem indexed_roundtrip_many (semi : Ix.SemI) (o : Opts) (items : List (MRS × List Ix.TI))
+    (h : ∀ p ∈ items, Ix.OkItem semi o p.1 p.2) (fuel : Nat) (hf : items.length + 1 ≤ fuel) :
+    ∃ ds, Ix.parseManyIx semi fuel (items.flatMap (·.2)) = .ok ds
+      ∧ Ix.All2 (Ix.DecodedAs semi o) (items.map (·.1)) ds :=
+  Ix.parseManyIx_toksIx semi o items h fuel hf
+
 /-- "property values compare case-insensitively": when the variable carries the full property list
 of its sort, the map that comes back has exactly its properties with upper-cased values. -/
 theorem indexed_same_properties (semi : Ix.SemI) (o : Opts) (m : MRS) (v : Str) (ps : Props)
@@ -230,19 +270,6 @@ theorem indexed_roundtrip_partial (semi : Ix.SemI) (o : Opts) (m : MRS) (ts rest
 original, as a map from roles to values. -/
 theorem indexed_same_arguments (semi : Ix.SemI) (o : Opts) (e : EP) (h : Ix.CoverEP semi e) :
     ∀ r, dget (Ix.epViewI semi o e).args r = dget e.args r := Ix.epViewI_args semi o e h
-
-/-- the structure part with property lists written: the same EPs and constraints; the decoded
-`variables` are `_match_properties` of the first-mention assignments. -/
-theorem indexed_roundtrip_props (semi : Ix.SemI) (o : Opts) (m : MRS) (ts rest : List Ix.TI)
-    (vp0 : Dict (List Str)) (htop : m.top.isSome = true)
-    (hprep : (if o.properties then Ix.prepProps semi m.vars else .ok []) = .ok vp0)
-    (hgood : IxL.GoodVp vp0) (hc : ∀ e ∈ m.rels, Ix.CoverEP semi e) (ht : Ix.toksIx semi o m = .ok ts) :
-    ∃ ix, m.index = some ix ∧
-      Ix.parseIx semi (ts ++ rest) =
-        (match Ix.matchAll semi (Ix.assignAll (IxL.asgVar vp0 ix ++ IxL.asgRels semi (Ix.encVarI vp0 ix).2 m.rels)) with
-         | .ok vars => .ok (mkMRS m.top m.index (m.rels.map (Ix.epViewI semi o)) m.hcons m.icons vars .unspec none none, rest)
-         | .error err => .error err) :=
-  Ix.parseIx_toksIx_props semi o m ts rest vp0 htop hprep hgood hc ht
 
 /-! ## MRS-JSON, dictionary level (json.dumps/json.loads are the identity on these dictionaries:
 assumption, checked on every generated case) -/
@@ -604,5 +631,143 @@ example : dget (decodedS ⟨false, true⟩ exM).vars "e2".toList = some [] := by
 example : fromDict (toDict ⟨true, false⟩ exM) = some (viewJ ⟨true, false⟩ exM) := by decide
 example : (Lnk.parse "<1 2 3>".toList).toOption = some (.tokens [1, 2, 3]) := by decide
 example : scanDQ "a\\\"b\" x".toList = some ("a\\\"b".toList, " x".toList) := by decide
+
+/-! ### witnesses: the hypotheses of the main theorems are jointly satisfiable -/
+
+def exM_rels : exM.rels = [{ pred := "_rain_v_1".toList, label := "h1".toList, args := [("ARG0".toList, "e2".toList), ("CARG".toList, "a\"b\\".toList)], lnk := .charspan 0 4, surface := some [] }] := rfl
+def exM_vars : exM.vars = [("e2".toList, [("TENSE".toList, "pres".toList), ("SF".toList, "prop".toList)]),
+    ("h0".toList, []), ("h1".toList, [])] := by decide
+
+instance (s : Str) : Decidable (Lex.Atom s) := by unfold Lex.Atom; infer_instance
+instance (s : Str) : Decidable (Lex.NoBreak s) := by unfold Lex.NoBreak; infer_instance
+instance (s : Str) : Decidable (IxLex.AtomI s) := by unfold IxLex.AtomI; infer_instance
+instance (s : Str) : Decidable (IxLex.NoBreakI s) := by unfold IxLex.NoBreakI; infer_instance
+
+/-- hypotheses of `simplemrs_roundtrip`, `simplemrs_text_roundtrip(_indented)`. -/
+def exM_exprS : ExprS exM where
+  top := by intro t h; cases h; decide
+  index := by intro t h; cases h; decide
+  rels := by
+    intro e he; rw [exM_rels] at he; simp only [List.mem_singleton] at he; subst he
+    exact ⟨by decide, by decide, by decide, by decide, by decide⟩
+  hcons := by decide
+  icons := by decide
+  props := by rw [exM_vars]; decide
+  propsNodup := by rw [exM_vars]; decide
+
+/-- hypothesis of `mrx_roundtrip`. -/
+def exM_exprX : ExprX exM where
+  top := by intro t h; cases h; decide
+  index := by intro t h; cases h; decide
+  labels := by rw [exM_rels]; decide
+  preds := by rw [exM_rels]; decide
+  roles := by rw [exM_rels]; decide
+  rolesNodup := by rw [exM_rels]; decide
+  vals := by rw [exM_rels]; decide
+  hcons := by decide
+  icons := by decide
+  props := by rw [exM_vars]; decide
+
+/-- hypothesis of `mrsjson_roundtrip`; of `simplemrs_stable`, `simplemrs_variable_properties`. -/
+def exM_filled : Filled exM := by unfold Filled; decide
+def exM_nodup : (exM.vars.map (·.1)).Nodup ∧ ∀ vp ∈ exM.vars, (vp.2.map (·.1)).Nodup := by rw [exM_vars]; decide
+
+/-- hypothesis of `simplemrs_lex_render`, `simplemrs_lex_indented`, `simplemrs_text_roundtrip*`. -/
+def exM_lexExprS : Lex.LexExprS exM where
+  top := by intro t h; cases h; decide
+  index := by intro t h; cases h; decide
+  preds := by
+    intro e he; rw [exM_rels] at he; simp only [List.mem_singleton] at he; subst he
+    refine ⟨by decide, fun _ => Or.inl ⟨by decide, ?_⟩⟩
+    exact ⟨"rain".toList, 'v', by decide, by decide, by decide, Or.inr ⟨"1".toList, by decide, by decide, by decide⟩⟩
+  labels := by rw [exM_rels]; decide
+  roles := by rw [exM_rels]; decide
+  vals := by rw [exM_rels]; decide
+  eplnk := by rw [exM_rels]; intro e he; simp only [List.mem_singleton] at he; subst he; exact Or.inr trivial
+  epsurf := by rw [exM_rels]; intro e he s hs; simp only [List.mem_singleton] at he; subst he; cases hs; decide
+  hcons := by decide
+  icons := by decide
+  props := by rw [exM_vars]; decide
+  sorts := by rw [exM_vars]; decide
+  lnk := fun _ => trivial
+  surf := by intro s hs; cases hs; decide
+
+example : (Lex.lex (Lex.renderInd ⟨true, true⟩ exM)).map parse = some (.ok (decodedS ⟨true, true⟩ exM, [])) :=
+  simplemrs_text_roundtrip_indented _ _ exM_lexExprS exM_exprS
+example : ofXml (toXml ⟨true, false⟩ exM) = some (decodedX ⟨true, false⟩ exM) := mrx_roundtrip _ _ exM_exprX
+
+/-- a SEM-I as the harness generates them (fragment): synopses, the property lists of the sorts, the
+two hierarchies as descendants tables. -/
+def exSemi : Ix.SemI :=
+  { preds := [("_rain_v_1".toList, [[⟨"ARG0".toList, "e".toList, false⟩]]),
+              ("_chase_v_1".toList, [[⟨"ARG0".toList, "e".toList, false⟩, ⟨"ARG2".toList, "x".toList, false⟩,
+                                      ⟨"CARG".toList, "string".toList, true⟩]])],
+    vprops := [("e".toList, [("SF".toList, "sf".toList), ("TENSE".toList, "tense".toList), ("PROG".toList, "bool".toList)]),
+               ("x".toList, [("PERS".toList, "pers".toList), ("NUM".toList, "num".toList)]), ("h".toList, [])],
+    sub := [("u".toList, ["i".toList, "p".toList, "e".toList, "x".toList, "h".toList]), ("i".toList, ["e".toList, "x".toList]),
+            ("p".toList, ["x".toList, "h".toList]), ("e".toList, []), ("x".toList, []), ("h".toList, [])],
+    psub := [("sf".toList, ["prop".toList, "ques".toList]), ("tense".toList, ["pres".toList, "past".toList]),
+             ("bool".toList, ["+".toList, "-".toList]), ("pers".toList, ["1".toList, "2".toList, "3".toList]),
+             ("num".toList, ["sg".toList, "pl".toList])] }
+
+def exI : MRS :=
+  mkMRS (some "h0".toList) (some "e2".toList)
+    [{ pred := "_chase_v_1".toList, label := "h1".toList,
+       args := [("ARG2".toList, "x4".toList), ("CARG".toList, "a\"b".toList), ("ARG0".toList, "e2".toList)], lnk := .charspan 0 4 }]
+    [⟨"h0".toList, "qeq".toList, "h1".toList⟩] []
+    [("e2".toList, [("TENSE".toList, "pres".toList), ("SF".toList, "prop".toList), ("PROG".toList, "-".toList)]),
+     ("x4".toList, [("NUM".toList, "sg".toList), ("PERS".toList, "3".toList)])] .unspec none none
+
+def exI_rels : exI.rels = [{ pred := "_chase_v_1".toList, label := "h1".toList, args := [("ARG2".toList, "x4".toList), ("CARG".toList, "a\"b".toList), ("ARG0".toList, "e2".toList)], lnk := .charspan 0 4 }] := rfl
+
+def exSyn : Ix.Synopsis :=
+  [⟨"ARG0".toList, "e".toList, false⟩, ⟨"ARG2".toList, "x".toList, false⟩, ⟨"CARG".toList, "string".toList, true⟩]
+
+/-- hypotheses of `indexed_roundtrip`, `indexed_text_roundtrip`, `indexed_roundtrip_partial`. -/
+def exI_cover : ∀ e ∈ exI.rels, Ix.CoverEP exSemi e := by
+  intro e he; rw [exI_rels] at he; simp only [List.mem_singleton] at he; subst he
+  exact { rolesUpper := by decide, rolesNodup := by decide, cargNonempty := by intro c h; cases h; decide,
+          look := ⟨exSyn, exSyn, by rfl, by decide, by decide, by rfl, by decide⟩ }
+/-- the generated covering SEM-Is satisfy the decidable property-list condition. -/
+def exI_propsCover : Ix.propsCover exSemi exI = true := by decide
+def exI_top : exI.top.isSome = true := rfl
+def exI_nodup : (exI.vars.map (·.1)).Nodup := by decide
+def exI_toks : (Ix.toksIx exSemi ⟨true, true⟩ exI).toOption.isSome = true := by decide
+/-- the text the model produces for it. -/
+example : (Ix.toksIx exSemi ⟨true, true⟩ exI).toOption.map IxLex.renderIx
+    = some "<h0,e2:PROP:PRES:-,{h1:_chase_v_1<0:4>(e2,x4:3:SG,\"a\\\"b\")},{h0 qeq h1}>".toList := by decide
+example : ((Ix.toksIx exSemi ⟨true, true⟩ exI).toOption.bind
+            (fun ts => (Ix.parseIx exSemi ts).toOption.map (fun r => dget r.1.vars "x4".toList)))
+    = some (some [("PERS".toList, "3".toList), ("NUM".toList, "SG".toList)]) := by decide
+
+def exI_prep : (if (⟨true, true⟩ : Opts).properties then Ix.prepProps exSemi exI.vars else .ok [])
+    = .ok [("e2".toList, ["PROP".toList, "PRES".toList, "-".toList]), ("x4".toList, ["3".toList, "SG".toList])] := by rfl
+
+/-- hypothesis of `indexed_lex_render`, `indexed_text_roundtrip`. -/
+def exI_lexExprI : IxLex.LexExprI exSemi ⟨true, true⟩ exI where
+  top := by intro t h; cases h; decide
+  index := by intro t h; cases h; decide
+  preds := by rw [exI_rels]; decide
+  labels := by rw [exI_rels]; decide
+  vals := by rw [exI_rels]; decide
+  eplnk := by intro _; rw [exI_rels]; intro e he; simp only [List.mem_singleton] at he; subst he; exact Or.inr ⟨0, 4, rfl⟩
+  hcons := by decide
+  icons := by decide
+  props := by intro vp0 h; rw [exI_prep] at h; cases h; decide
+
+example : ∃ ts d, Ix.toksIx exSemi ⟨true, true⟩ exI = .ok ts
+    ∧ (IxLex.lexIx (IxLex.renderIx ts)).map (Ix.parseIx exSemi) = some (.ok (d, [])) ∧ d.index = exI.index := by
+  cases h : Ix.toksIx exSemi ⟨true, true⟩ exI with
+  | error e => have := exI_toks; rw [h] at this; cases this
+  | ok ts =>
+    obtain ⟨d, hd, _, h2, _⟩ := indexed_text_roundtrip exSemi ⟨true, true⟩ exI ts exI_lexExprI exI_top exI_cover
+      exI_propsCover exI_nodup h
+    exact ⟨ts, d, rfl, hd, h2⟩
+
+example : ∀ ts d r, Ix.toksIx exSemi ⟨true, true⟩ exI = .ok ts → Ix.parseIx exSemi (ts ++ []) = .ok (d, r) →
+    Ix.toksIx exSemi ⟨true, true⟩ d = .ok ts :=
+  fun ts d r h hp => indexed_stable exSemi _ exI d ts [] r exI_top exI_cover exI_propsCover exI_nodup h hp
+example : toXml ⟨true, true⟩ (decodedX ⟨true, true⟩ exM) = toXml ⟨true, true⟩ exM := mrx_stable _ _ exM_nodup.1 exM_nodup.2
+example : toks ⟨false, true⟩ (decodedS ⟨false, true⟩ exM) = toks ⟨false, true⟩ exM := simplemrs_stable _ _ exM_nodup.1 exM_nodup.2
 
 end Verif.C01.P
